@@ -87,6 +87,37 @@ def dense(M):
     return np.asarray(M, dtype=float)
 
 
+COVREL = {"max_rel": 0.0, "max_white": 0.0, "white_checked": 0, "white_skipped_cond": 0}
+
+
+def cov_mismatch(C, R, tol_rel=1e-6, tol_white=1e-5):
+    """the covariance C = L L^T read off the draws vs the exact posterior covariance R, judged RELATIVELY to the scale of R
+    (posterior variances of 1e-12 are as legitimate as O(1) ones): (a) max|C-R| <= tol_rel*max|R|; (b) when R is
+    well-conditioned, in the metric of R itself: R^-1/2 C R^-1/2 = I up to tol_white (so that directions of small posterior
+    variance are judged on their own scale).  Returns None or a description of the mismatch."""
+    C = np.asarray(C, dtype=float); R = np.asarray(R, dtype=float)
+    if C.shape != R.shape or not np.all(np.isfinite(C)):
+        return "shape / non-finite"
+    sc = float(np.abs(R).max(initial=0.0))
+    rel = float(np.abs(C - R).max(initial=0.0)) / sc if sc > 0 else float(np.abs(C).max(initial=0.0))
+    COVREL["max_rel"] = max(COVREL["max_rel"], rel)
+    if rel > tol_rel:
+        return f"max|LL^T - C_post| / max|C_post| = {rel:.3e}"
+    try:
+        w, V = np.linalg.eigh(0.5 * (R + R.T))
+        if w.min() > 0 and w.max() / w.min() < 1e6:
+            Wh = (V / np.sqrt(w)) @ V.T
+            dev = float(np.abs(Wh @ C @ Wh - np.eye(len(w))).max())
+            COVREL["max_white"] = max(COVREL["max_white"], dev); COVREL["white_checked"] += 1
+            if dev > tol_white:
+                return f"max|C_post^-1/2 LL^T C_post^-1/2 - I| = {dev:.3e}"
+        else:
+            COVREL["white_skipped_cond"] += 1
+    except np.linalg.LinAlgError:
+        pass
+    return None
+
+
 def parse_arr(s):
     """driver array -> ('s', float) | ('v', ndarray) | ('m', ndarray) | ('err', class)"""
     if s.startswith("err:"):
@@ -255,6 +286,15 @@ def gen_lg_case(cuqi, rs, thorough, forced=None):
         f2 = c.opscale ** 2
         fl = {"cov": f2, "prec": 1.0 / f2, "sqrtcov": abs(c.opscale), "sqrtprec": 1.0 / abs(c.opscale)}[c.lik.param]
         c.lik = Spec(c.lik.param, c.lik.shape, float(c.lik.value) * fl if c.lik.shape == "scalar" else (np.array(c.lik.value, dtype=float) * fl).tolist(), c.lik.d)
+    # small units on ONE side only: accurate data (noise variance * lik_scale) or a tight prior (prior variance * prior_scale);
+    # the posterior covariance is then of that absolute size (1e-8 .. 1e-14) although operator and unknown are O(1)
+    c.lik_scale = forced.get("lik_scale"); c.prior_scale = forced.get("prior_scale")
+    for attr, f1 in (("lik", c.lik_scale), ("prior", c.prior_scale)):
+        if f1 is not None:
+            sp = getattr(c, attr)
+            f = {"cov": f1, "prec": 1.0 / f1, "sqrtcov": math.sqrt(f1), "sqrtprec": 1.0 / math.sqrt(f1)}[sp.param]
+            val = float(sp.value) * f if sp.shape == "scalar" else (np.array(sp.value, dtype=float) * f).tolist()
+            setattr(c, attr, Spec(sp.param, sp.shape, val, sp.d))
     c.compute_cov = bool(forced.get("compute_cov", rs.rand() < 0.7))
     mk = forced.get("mean", ["vector"] * 7 + ["zeros", "scalar0", "scalar"])
     if isinstance(mk, list):
@@ -281,7 +321,7 @@ def gen_lg_case(cuqi, rs, thorough, forced=None):
 def lg_desc(c):
     return {"m": c.m, "n_fun": c.nfun, "n_par": c.npar, "backing": c.backing, "geom": c.geom_label,
             "A": c.A.tolist(), "prior": [c.prior.param, c.prior.shape, c.prior.value], "lik": [c.lik.param, c.lik.shape, c.lik.value],
-            "scale": getattr(c, "scale", None), "opscale": getattr(c, "opscale", None), "buffered_forward": getattr(c, "buffered", False), "dtypes": [getattr(c, "A_dtype", None), getattr(c, "b_dtype", None), getattr(c, "mean_dtype", None)], "compute_cov": c.compute_cov, "mean": (c.mean.tolist() if hasattr(c.mean, "tolist") else c.mean), "b": c.b.tolist()}
+            "scale": getattr(c, "scale", None), "lik_scale": getattr(c, "lik_scale", None), "prior_scale": getattr(c, "prior_scale", None), "opscale": getattr(c, "opscale", None), "buffered_forward": getattr(c, "buffered", False), "dtypes": [getattr(c, "A_dtype", None), getattr(c, "b_dtype", None), getattr(c, "mean_dtype", None)], "compute_cov": c.compute_cov, "mean": (c.mean.tolist() if hasattr(c.mean, "tolist") else c.mean), "b": c.b.tolist()}
 
 
 def lg_key(c, site="MAP"):
@@ -290,7 +330,8 @@ def lg_key(c, site="MAP"):
     lk = c.lik.label + (cc if c.lik.param != "cov" else "")
     pr = c.prior.label + (cc if c.prior.param != "cov" else "")
     mean = "" if c.mean_kind in ("vector", "zeros") else ":mean-scalar"
-    sc = ("" if getattr(c, "scale", None) is None else ":scaled") + ("" if getattr(c, "opscale", None) is None else ":opscaled")
+    sc = ("" if getattr(c, "scale", None) is None else ":scaled") + ("" if getattr(c, "opscale", None) is None else ":opscaled") + \
+        ("" if getattr(c, "lik_scale", None) is None else ":smallnoise") + ("" if getattr(c, "prior_scale", None) is None else ":tightprior")
     dt = "" if getattr(c, "A_dtype", None) is None else ":A-" + str(c.A_dtype)
     return f"{site}:direct:{c.backing}:{g}:lik={lk}:prior={pr}{mean}{sc}{dt}"
 
@@ -424,14 +465,21 @@ def run(ctx):
                         "sqrtcov matrices are generated symmetric (R^T R = R R^T), so the C04 finding on the sqrtcov convention does not interfere",
                         "dense arrays only (sparse covariance inputs are not generated)"]
     RETAINED.clear()
-    run_direct(ctx, cuqi, rs, thorough)
-    run_routes(ctx, cuqi, rs, thorough)
-    run_opt(ctx, cuqi, rs, thorough)
-    run_ml_full(ctx, cuqi, rs, thorough)
-    run_starts(ctx, cuqi, rs, thorough)
-    run_opt_scale(ctx, cuqi, rs, thorough)
-    run_histories(ctx, cuqi, rs, thorough)
-    run_threshold(ctx, cuqi, rs, thorough)
+    for k_ in COVREL:
+        COVREL[k_] = 0 if isinstance(COVREL[k_], int) else 0.0
+    import os
+    only = os.environ.get("C15_ONLY")     # development aid: run a single part (never set by ./check itself)
+    from harness.props.c15_gauss import run_gauss, run_loop
+    parts = [("direct", run_direct), ("routes", run_routes), ("opt", run_opt), ("ml_full", run_ml_full), ("starts", run_starts),
+             ("opt_scale", run_opt_scale), ("histories", run_histories), ("threshold", run_threshold)]
+    for nm, fn in parts:
+        if only is None or nm in only.split(","):
+            fn(ctx, cuqi, rs, thorough)
+    if only is None or "gauss" in only.split(","):
+        run_gauss(ctx, cuqi, np.random.RandomState(ctx.seed * 7919 + 1503), thorough, oracle_point)
+    if only is None or "loop" in only.split(","):
+        run_loop(ctx, cuqi, np.random.RandomState(ctx.seed * 7919 + 1504), thorough)
+    ctx.extra_cov["direct_draw_covariance_relative"] = dict(COVREL)
     check_retained(ctx)
 
 
@@ -492,6 +540,21 @@ def run_direct(ctx, cuqi, rs, thorough):
         if k % 4 == 3:
             f["neardiag"] = True
         f["n"] = int(rs.randint(2, 5)); f["m"] = f["n"] + int(rs.randint(0, 3))
+        cases.append(gen_lg_case(cuqi, rs, thorough, f))
+    # small units on one side: accurate data (square well-conditioned A, noise variance 1e-8 .. 1e-14) or a tight prior
+    # (prior variance 1e-8 .. 1e-14, any shape); posterior variances are then 1e-8 .. 1e-14 with O(1) operator and unknown
+    small = [1e-8, 1e-10, 1e-12, 1e-14, 1e-9, 1e-11]
+    for k in range(len(small) * (8 if thorough else 3)):
+        n = int(rs.randint(2, 5))
+        f = dict(mean="vector", compute_cov=True, backing=["mb", "fn"][k % 2], geom=["default", "Continuous1D", "Step-full"][k % 3],
+                 prior_shape=["scalar", "vector", "matrix"][k % 3], lik_shape=["scalar", "matrix", "vector"][(k // 3) % 3],
+                 prior_param=["cov", "cov", "prec", "sqrtcov", "sqrtprec"][k % 5], lik_param=["cov", "prec", "cov", "sqrtprec", "sqrtcov"][(k // 2) % 5])
+        if k % 2 == 0:   # accurate data
+            A = rs.randint(-1, 2, size=(n, n)).astype(float) + 3.0 * np.eye(n)
+            f.update(n=n, m=n, A=A.tolist(), lik_scale=small[k % len(small)])
+        else:            # tight prior
+            f.update(n=n, m=n + int(rs.randint(-1, 3)), prior_scale=small[k % len(small)])
+            f["m"] = max(1, f["m"])
         cases.append(gen_lg_case(cuqi, rs, thorough, f))
     # narrow storage types whose own arithmetic wraps or is logical: bool masks, int8/uint8/int16 with row inner products
     # beyond the type's range, float16/float32/int32 -- for the matrix, the data and the prior mean
@@ -882,8 +945,9 @@ def sample_case(ctx, cuqi, c, BP, desc, rmean, rcov, rs, hist):
     # the covariance the code's own formula yields (stored matrix): tie
     if c.ref_code is not None and c.ref_code.startswith("mean="):
         ccode = np.array([[float(v) for v in r] for r in pm(c.ref_code.split(" ")[1][4:])])
-        if not mclose(L @ L.T, ccode, 1e-7):
-            ctx.disagree(key, desc, str(ccode.tolist())[:200], (L @ L.T).tolist(), "L L^T vs inv(A^T inv(Ce) A + inv(Cx)) of the model")
+        mm_ = cov_mismatch(L @ L.T, ccode)
+        if mm_:
+            ctx.disagree(key, desc, str(ccode.tolist())[:200], (L @ L.T).tolist(), "L L^T vs inv(A^T inv(Ce) A + inv(Cx)) of the model: " + mm_)
     # ---- oracle: offset = posterior mean, L L^T = posterior covariance, L a Cholesky factor
     C = L @ L.T
     okL = np.allclose(L, np.tril(L), atol=1e-12) and np.all(np.diag(L) > 0)
@@ -891,8 +955,10 @@ def sample_case(ctx, cuqi, c, BP, desc, rmean, rcov, rs, hist):
         ctx.note(f"direct sampler factor is not lower-triangular with positive diagonal at {key}")
     if not vclose(centre, rmean, 1e-7):
         ctx.fail(key, desc, "offset of the draws = posterior mean " + str(rmean.tolist()), centre.tolist(), "direct draws are not centred on the closed-form posterior mean")
-    elif not mclose(C, rcov, 1e-7):
-        ctx.fail(key, desc, "L L^T = posterior covariance " + str(rcov.tolist())[:300], C.tolist(), "direct draws do not have the closed-form posterior covariance")
+    else:
+        mm_ = cov_mismatch(C, rcov)
+        if mm_:
+            ctx.fail(key, desc, "L L^T = posterior covariance " + str(rcov.tolist())[:300], C.tolist(), "direct draws do not have the closed-form posterior covariance (relative to its own scale): " + mm_)
 
 
 # ----------------------------------------------------------------------------------------------- routes and the solver wrapper
@@ -1552,8 +1618,10 @@ def run_histories(ctx, cuqi, rs, thorough):
             ctx.disagree(skey, desc, cmod[:200], centre.tolist(), "centre of the direct draws after the history: model vs implementation")
         if not vclose(centre, rmean, 1e-7):
             ctx.fail(skey, desc, "offset of the draws = current posterior mean " + str(rmean.tolist()), centre.tolist(), "direct draws after the history are not centred on the current posterior mean")
-        elif not mclose(L @ L.T, rcov, 1e-7):
-            ctx.fail(skey, desc, "L L^T = current posterior covariance", (L @ L.T).tolist(), "direct draws after the history do not have the current posterior covariance")
+        else:
+            mm_ = cov_mismatch(L @ L.T, rcov)
+            if mm_:
+                ctx.fail(skey, desc, "L L^T = current posterior covariance " + str(rcov.tolist())[:300], (L @ L.T).tolist(), "direct draws after the history do not have the current posterior covariance: " + mm_)
     ctx.extra_cov["history_histogram"] = hist
 
 
